@@ -608,4 +608,15 @@ theorem foldl_and_eq_all (l : List Hop) (b : Bool) : l.foldl (fun acc h => acc &
   | nil => simp
   | cons h t ih => simp [List.foldl, ih, Bool.and_assoc]
 
+/-! ### hostsfile keys -/
+
+theorem map_lower_joinDots : ∀ (ls : List Str), (joinDots ls).map lowerChar = joinDots (ls.map (·.map lowerChar))
+  | [] => rfl
+  | [l] => rfl
+  | l :: m :: t => by
+    have ih := map_lower_joinDots (m :: t)
+    have hdot : lowerChar '.' = '.' := by decide
+    simp only [joinDots, List.map_cons, List.map_append, hdot] at ih ⊢
+    rw [ih]
+
 end SdnsVerif.Lemmas.WirePath
